@@ -117,7 +117,14 @@ fn gen_blocks(rng: &mut Rng) -> Vec<ReportBlock> {
         packets_lost: (rng.range(0, 1 << 24) as i32) - (1 << 23), highest_sequence: rng.next() as u32, jitter: rng.next() as u32,
         last_sender_report: rng.next() as u32, delay_since_last_sender_report: rng.next() as u32 }).collect()
 }
-fn gen_text(rng: &mut Rng) -> String { (0..rng.range(0, 20)).map(|_| (b'a' + rng.below(26) as u8) as char).collect() }
+fn gen_text(rng: &mut Rng) -> String {
+    match rng.below(8) {
+        0 => "é".repeat(rng.range(40, 130) as usize),                       // > 255 bytes of 2-byte characters (cut at a boundary)
+        1 => format!("{}€{}", "x".repeat(rng.range(250, 256) as usize), "y".repeat(5)),   // multi-byte character straddling byte 255
+        2 => "\u{FFFD}".repeat(rng.range(1, 90) as usize),
+        _ => (0..rng.range(0, 20)).map(|_| (b'a' + rng.below(26) as u8) as char).collect(),
+    }
+}
 
 pub fn gen_rtcp_packet(rng: &mut Rng) -> RtcpPacket {
     match rng.below(9) {
@@ -143,7 +150,7 @@ pub fn gen_rtcp_packet(rng: &mut Rng) -> RtcpPacket {
 }
 fn valid_rtcp(rng: &mut Rng) -> Vec<u8> {
     let ps: Vec<RtcpPacket> = (0..rng.range(1, 4)).map(|_| gen_rtcp_packet(rng)).collect();
-    let mut v = marshal_rtcp_packets(&ps).expect("valid RTCP marshals");
+    let mut v = match marshal_rtcp_packets(&ps) { Ok(v) => v, Err(_) => marshal_rtcp_packets(&[RtcpPacket::PictureLossIndication(PictureLossIndication { sender_ssrc: 1, media_ssrc: 2 })]).unwrap() };
     if rng.chance(1, 5) && !v.is_empty() {
         // RTCP padding on the last packet: set P bit, append pad words
         let mut off = 0; let mut last = 0;
